@@ -8,7 +8,7 @@ namespace Babylon.Exec
 open Babylon.Core
 
 /-- closing tactic for the place goals -/
-macro "p_close" : tactic => `(tactic| (
+macro "p_close_A" : tactic => `(tactic| (
   (try simp only [exec_proj, upd_same, Q.claim_fold, Q.bump_fold] at *)
   first
     | done
@@ -53,20 +53,20 @@ theorem Inv3.step_a1 (I : Inv1 c s) (J : Inv2 c s) (K : Inv3 c s) (X : Inv3X s) 
     have hc3 : i0 < (s.l k0).cells.length := Q.stAt_some_lt _ _ _ hc2
     rw [hidx] at hc1; rw [hfull] at hc2
     clear hcell l4
-    cases ctx <;> simp only [hidx] at * <;> p_close
+    cases ctx <;> simp only [hidx] at * <;> p_close_A
   case wRecv i0 cl hpc hcell hfull =>
     have hc1 := Q.itemAt_eq _ _ _ hcell
     have hc2 := Q.stAt_eq _ _ _ hcell
     have hc3 : i0 < s.g.cells.length := Q.stAt_some_lt _ _ _ hc2
     rw [hfull] at hc2
     clear hcell l4
-    cases hx : cl.item <;> simp only [hx] at * <;> p_close
+    cases hx : cl.item <;> simp only [hx] at * <;> p_close_A
   case gPublish p k hpc hfree hst =>
     have hc3 : p < s.g.cells.length := Q.stAt_some_lt _ _ _ hst
-    clear l4; p_close
+    clear l4; p_close_A
   case rLPub id0 cid p k0 hpc hown hfree hst =>
     have hc3 : p < (s.l k0).cells.length := Q.stAt_some_lt _ _ _ hst
-    clear l4; p_close
+    clear l4; p_close_A
   case gTakeTask id0 k hpc =>
     clear l4
     dsimp only at hl ⊢
@@ -92,8 +92,7 @@ theorem Inv3.step_a1 (I : Inv1 c s) (J : Inv2 c s) (K : Inv3 c s) (X : Inv3X s) 
     obtain ⟨h1, h2⟩ := a1 id i hl
     have := Q.take_old s.g .wakeup _ i h1
     exact ⟨this.1, by rw [this.2]; exact h2⟩
-  all_goals (clear l4; try p_close)
-  all_goals (trace_state; sorry)
+  all_goals (clear l4; try p_close_A)
 
 set_option maxHeartbeats 4000000 in
 theorem Inv3.step_a2 (I : Inv1 c s) (J : Inv2 c s) (K : Inv3 c s) (X : Inv3X s) (h : StepCase c s t lb s') :
@@ -127,20 +126,20 @@ theorem Inv3.step_a2 (I : Inv1 c s) (J : Inv2 c s) (K : Inv3 c s) (X : Inv3X s) 
     have hc3 : i0 < (s.l k0).cells.length := Q.stAt_some_lt _ _ _ hc2
     rw [hidx] at hc1; rw [hfull] at hc2
     clear hcell l4
-    cases ctx <;> simp only [hidx] at * <;> p_close
+    cases ctx <;> simp only [hidx] at * <;> p_close_A
   case wRecv i0 cl hpc hcell hfull =>
     have hc1 := Q.itemAt_eq _ _ _ hcell
     have hc2 := Q.stAt_eq _ _ _ hcell
     have hc3 : i0 < s.g.cells.length := Q.stAt_some_lt _ _ _ hc2
     rw [hfull] at hc2
     clear hcell l4
-    cases hx : cl.item <;> simp only [hx] at * <;> p_close
+    cases hx : cl.item <;> simp only [hx] at * <;> p_close_A
   case gPublish p k hpc hfree hst =>
     have hc3 : p < s.g.cells.length := Q.stAt_some_lt _ _ _ hst
-    clear l4; p_close
+    clear l4; p_close_A
   case rLPub id0 cid p k0 hpc hown hfree hst =>
     have hc3 : p < (s.l k0).cells.length := Q.stAt_some_lt _ _ _ hst
-    clear l4; p_close
+    clear l4; p_close_A
   case rLSt id0 cid p k0 hpc hown hp =>
     clear l4
     dsimp only at hl ⊢
@@ -160,8 +159,7 @@ theorem Inv3.step_a2 (I : Inv1 c s) (J : Inv2 c s) (K : Inv3 c s) (X : Inv3X s) 
         have := Q.take_old (s.l k) (.task cid) _ i h1
         exact ⟨this.1, by rw [this.2]; exact h2⟩
       · simp only [upd, hk, if_false]; exact ⟨h1, h2⟩
-  all_goals (clear l4; try p_close)
-  all_goals (trace_state; sorry)
+  all_goals (clear l4; try p_close_A)
 
 set_option maxHeartbeats 4000000 in
 theorem Inv3.step_a3 (I : Inv1 c s) (J : Inv2 c s) (K : Inv3 c s) (X : Inv3X s) (h : StepCase c s t lb s') :
@@ -198,7 +196,7 @@ theorem Inv3.step_a3 (I : Inv1 c s) (J : Inv2 c s) (K : Inv3 c s) (X : Inv3X s) 
     rw [hidx] at hc1; rw [hfull] at hc2
     have hb2 : s.loc idx = .lq k0 i0 := b2 k0 i0 idx hc1 (by rw [hc2]; simp)
     clear hcell l4
-    cases ctx <;> simp only [hidx] at * <;> p_close
+    cases ctx <;> simp only [hidx] at * <;> p_close_A
   case wRecv i0 cl hpc hcell hfull =>
     have hc1 := Q.itemAt_eq _ _ _ hcell
     have hc2 := Q.stAt_eq _ _ _ hcell
@@ -207,15 +205,14 @@ theorem Inv3.step_a3 (I : Inv1 c s) (J : Inv2 c s) (K : Inv3 c s) (X : Inv3X s) 
     have hb1 : ∀ idx, cl.item = .task idx → s.loc idx = .gq i0 := by
       intro idx hx; rw [hx] at hc1; exact b1 i0 idx hc1 (by rw [hc2]; simp)
     clear hcell l4
-    cases hx : cl.item <;> simp only [hx] at * <;> p_close
+    cases hx : cl.item <;> simp only [hx] at * <;> p_close_A
   case gPublish p k hpc hfree hst =>
     have hc3 : p < s.g.cells.length := Q.stAt_some_lt _ _ _ hst
-    clear l4; p_close
+    clear l4; p_close_A
   case rLPub id0 cid p k0 hpc hown hfree hst =>
     have hc3 : p < (s.l k0).cells.length := Q.stAt_some_lt _ _ _ hst
-    clear l4; p_close
-  all_goals (clear l4; try p_close)
-  all_goals (trace_state; sorry)
+    clear l4; p_close_A
+  all_goals (clear l4; try p_close_A)
 
 end
 end Babylon.Exec
